@@ -33,7 +33,7 @@ def plan(tier: str, seed: int) -> list[dict]:
 
 
 def hdlc_noise(rng, cfg):
-    kind = rng.choice(("random", "dense", "lookalike", "abort", "esc_end", "truncated", "truncated_after_hcs", "overlong", "flag_esc", "none", "open_frame", "idle_line", "length_sweep", "short_then_overlong"))
+    kind = rng.choice(("random", "dense", "lookalike", "abort", "esc_end", "truncated", "truncated_after_hcs", "overlong", "flag_esc", "none", "open_frame", "idle_line", "length_sweep", "short_then_overlong", "abort_after_header"))
     if kind == "truncated":
         fr, _ = hdlc_gen.good_frame(rng, None, max_info=80, want_info=True)
         w = hdlc_gen.on_wire(fr, cfg[0])
@@ -57,7 +57,7 @@ def hdlc_noise(rng, cfg):
 
 
 def p1_noise(rng):
-    kind = rng.choice(("random", "struct", "ident_like", "ascii", "high", "bang_tail", "bang_in_ident", "binary_hdlc", "truncated", "overlong_line", "overlong_readout", "ident_then_junk", "none"))
+    kind = rng.choice(("random", "struct", "ident_like", "ascii", "high", "bang_tail", "bang_in_ident", "binary_hdlc", "truncated", "overlong_line", "overlong_readout", "ident_then_junk", "none", "idle_line", "truncated_readout_then_short_lines"))
     if kind == "truncated":
         r = p1_gen.strict_readout(rng, None, rng.choice((1, 5, 20)))
         out = r[: rng.randrange(1, len(r))]
